@@ -24,7 +24,7 @@ import (
 const rtPath = "verif.sim/simrt"
 const syncPath = "verif.sim/simrt/simsync"
 
-type stats struct{ gos, selects, singleSelects, chanops, mapranges, chanranges, syncImports, unhandled, cancels, closes int }
+type stats struct{ gos, selects, singleSelects, chanops, mapranges, chanranges, syncImports, unhandled, cancels, closes, dense int }
 
 var st stats
 
@@ -56,7 +56,7 @@ func main() {
 			if strings.HasSuffix(name, "_test.go") {
 				continue
 			}
-			in := &inst{pkg: p, file: f, fset: p.Fset, rel: rel(dir, name), closeStmts: map[*ast.ExprStmt]bool{}}
+			in := &inst{pkg: p, file: f, fset: p.Fset, rel: rel(dir, name), closeStmts: map[*ast.ExprStmt]bool{}, noDense: os.Getenv("VERIF_NO_DENSE") != ""}
 			in.run()
 			var buf bytes.Buffer
 			if err := format.Node(&buf, p.Fset, f); err != nil {
@@ -69,7 +69,7 @@ func main() {
 			}
 		}
 	}
-	fmt.Printf("instr: go=%d select=%d single_select=%d chanop=%d maprange=%d chanrange=%d syncimports=%d cancels=%d closes=%d unhandled=%d\n", st.gos, st.selects, st.singleSelects, st.chanops, st.mapranges, st.chanranges, st.syncImports, st.cancels, st.closes, st.unhandled)
+	fmt.Printf("instr: go=%d select=%d single_select=%d chanop=%d maprange=%d chanrange=%d syncimports=%d cancels=%d closes=%d dense=%d unhandled=%d\n", st.gos, st.selects, st.singleSelects, st.chanops, st.mapranges, st.chanranges, st.syncImports, st.cancels, st.closes, st.dense, st.unhandled)
 }
 
 func rel(dir, name string) string {
@@ -87,6 +87,7 @@ type inst struct {
 	rel    string
 	n      int
 	needRT bool
+	noDense bool
 	closeStmts map[*ast.ExprStmt]bool
 }
 
@@ -187,6 +188,7 @@ func (in *inst) run() {
 	}
 
 	astutil.Apply(in.file, nil, func(c *astutil.Cursor) bool {
+		in.denseStmt(c)
 		switch n := c.Node().(type) {
 		case *ast.GoStmt:
 			in.goStmt(c, n)
@@ -255,6 +257,117 @@ func (in *inst) run() {
 	if in.needRT {
 		astutil.AddNamedImport(in.fset, in.file, "simrt", rtPath)
 	}
+}
+
+// rule 7: statement-level preemption points. A store to memory that another goroutine may see (field, element,
+// dereference, package-level variable), a condition that reads such memory, delete/copy and every loop body get a
+// simrt.Dense call in front: a no-op unless the run armed it, then a forced preemption. This makes check-then-act
+// sequences on unlocked state, critical sections whose lock was dropped and scratch buffers shared between callers
+// interleavable, which yields at synchronisation operations alone never do.
+func (in *inst) denseStmt(c *astutil.Cursor) {
+	if in.noDense {
+		return
+	}
+	node := c.Node()
+	switch n := node.(type) {
+	case *ast.ForStmt:
+		in.denseBody(n.Body, n)
+		return
+	case *ast.RangeStmt:
+		in.denseBody(n.Body, n)
+		return
+	}
+	if !inList(c) {
+		return
+	}
+	if _, ok := c.Parent().(*ast.CommClause); ok {
+		// bodies of select clauses are moved by the select rewrite; their statements are handled like any other
+	}
+	hit := false
+	switch n := node.(type) {
+	case *ast.AssignStmt:
+		if n.Tok != token.DEFINE {
+			for _, l := range n.Lhs {
+				if in.sharedLoc(l) {
+					hit = true
+				}
+			}
+		}
+	case *ast.IncDecStmt:
+		hit = in.sharedLoc(n.X)
+	case *ast.IfStmt:
+		hit = in.readsShared(n.Cond)
+	case *ast.ExprStmt:
+		if call, ok := n.X.(*ast.CallExpr); ok {
+			if id, ok := call.Fun.(*ast.Ident); ok && (id.Name == "delete" || id.Name == "copy") {
+				if _, isBuiltin := in.pkg.TypesInfo.Uses[id].(*types.Builtin); isBuiltin {
+					hit = true
+				}
+			}
+		}
+	}
+	if !hit {
+		return
+	}
+	in.needRT = true
+	st.dense++
+	c.InsertBefore(in.stmts("simrt.Dense(" + in.site(node) + ")")[0])
+}
+
+func (in *inst) denseBody(b *ast.BlockStmt, at ast.Node) {
+	if b == nil {
+		return
+	}
+	in.needRT = true
+	st.dense++
+	b.List = append(in.stmts("simrt.Dense("+in.site(at)+")"), b.List...)
+}
+
+// sharedLoc: the expression denotes memory that may be visible to another goroutine.
+func (in *inst) sharedLoc(e ast.Expr) bool {
+	switch x := e.(type) {
+	case *ast.ParenExpr:
+		return in.sharedLoc(x.X)
+	case *ast.StarExpr, *ast.IndexExpr:
+		return true
+	case *ast.SelectorExpr:
+		if sel, ok := in.pkg.TypesInfo.Selections[x]; ok {
+			return sel.Kind() == types.FieldVal
+		}
+		// package-qualified variable of another package
+		_, isVar := in.pkg.TypesInfo.Uses[x.Sel].(*types.Var)
+		return isVar
+	case *ast.Ident:
+		if v, ok := in.pkg.TypesInfo.Uses[x].(*types.Var); ok && v.Parent() == in.pkg.Types.Scope() {
+			return true
+		}
+	}
+	return false
+}
+
+func (in *inst) readsShared(e ast.Expr) bool {
+	found := false
+	ast.Inspect(e, func(n ast.Node) bool {
+		if found {
+			return false
+		}
+		switch x := n.(type) {
+		case *ast.FuncLit:
+			return false
+		case *ast.SelectorExpr:
+			if sel, ok := in.pkg.TypesInfo.Selections[x]; ok && sel.Kind() == types.FieldVal {
+				found = true
+			}
+		case *ast.IndexExpr, *ast.StarExpr:
+			found = true
+		case *ast.Ident:
+			if v, ok := in.pkg.TypesInfo.Uses[x].(*types.Var); ok && v.Parent() == in.pkg.Types.Scope() {
+				found = true
+			}
+		}
+		return true
+	})
+	return found
 }
 
 // singleSelect adds yields around a select with at most one communication
